@@ -121,6 +121,11 @@ class UnionMatcher(AdditiveBiMatcher):
 
     _id = None
 
+    def reset(self):
+        AdditiveBiMatcher.reset(self)
+        # Forget the cached current id
+        self._id = None
+
     def replace(self, minquality=0):
         a = self.a
         b = self.b
